@@ -837,7 +837,10 @@ class Execution:
             for k, (rec, tokens) in enumerate(zip(recs, parsed['atoms'])):
                 want = (tokens[4][:width], tokens[3][:rwidth], int(tokens[2]) % mod)
                 got = (rec['name'], rec['resname'], rec['resid'] % mod)
-                if want != got:
+                # over-long names are truncated to the column width, from either end depending on the alignment
+                same = (rec['name'] in (tokens[4][:width], tokens[4][-width:]) and rec['resname'] in (tokens[3][:rwidth], tokens[3][-rwidth:])
+                        and str(int(tokens[2]))[-(len(str(mod)) - 1):].lstrip('-') == str(rec['resid'])[-(len(str(mod)) - 1):].lstrip('-'))
+                if not same:
                     raise Violation('atom-for-atom:' + fmt, expected={'itp': want, 'molecule': j, 'atom': k + 1}, actual={fmt: got},
                                     signature='atom-for-atom:' + fmt, detail=repr(op))
         self.stats.probes['coords_vs_itp_' + fmt] += 1
@@ -979,7 +982,11 @@ class Execution:
             return
         self.expect_ok(out, op)
         snap = itpcheck.snapshot(real, moltype)
-        parsed = itpcheck.parse_itp(buf.getvalue())
+        try:
+            parsed = itpcheck.parse_itp(buf.getvalue())
+        except itpcheck.ParseProblem as err:
+            raise Violation('itp-malformed', expected='a well-formed ITP (sections, one level of balanced #ifdef/#ifndef ... #endif)',
+                            actual=str(err), detail={'op': op, 'text': buf.getvalue()[-1500:]})
         problems = itpcheck.compare(snap, parsed, moltype)
         self.stats.probes['itp_roundtrip'] += 1
         keys = list(model.nodes)
@@ -1010,12 +1017,12 @@ class Generator:
 
     def attrs(self, rng, complete=True):
         self.counter += 1
-        a = {'atomname': 'A%d' % self.counter, 'atype': rng.choice(ATYPES), 'resname': rng.choice(RESNAMES),
-             'resid': rng.choice([0, 1, 1, 2, 3, 4, 4]), 'charge_group': rng.choice([0, 1, 2, 3, 4, 5, 6]),
+        a = {'atomname': rng.choice(['A%d', 'A%d', 'LONGNAME%d', 'X%d']) % self.counter, 'atype': rng.choice(ATYPES), 'resname': rng.choice(RESNAMES),
+             'resid': rng.choice([0, 1, 1, 2, 3, 4, 4, -2, 12345]), 'charge_group': rng.choice([0, 1, 2, 3, 4, 5, 6, 150]),
              'chain': rng.choice(['A', 'A', 'B'])}
         r = rng.random()
         if r < 0.5:
-            a['charge'] = rng.choice([0.0, 1.0, -1.0, 0.5, -0.25])
+            a['charge'] = rng.choice([0.0, 1.0, -1.0, 0.5, -0.25, 0.123456789, 0])
             if rng.random() < 0.5:
                 a['mass'] = rng.choice([72.0, 36.0, 0.0, 54.5])
         elif r < 0.55:
@@ -1059,7 +1066,8 @@ class Generator:
         if t == 'virtual_sitesn':
             params = [rng.choice([1, 2])]
         else:
-            params = [rng.choice([1, 2, 9])] + [rng.choice([0.47, 1250, 180.0, '1e3', 35.5, 0.0])
+            params = [rng.choice([1, 2, 9])] + [rng.choice([0.47, 1250, 180.0, '1e3', 35.5, 0.0, 0.4712345678, 2.3238e-07, -93.11763316067692,
+                                                            1e-12, 123456.789012])
                                                 for _ in range(rng.randint(0, 3))]
         meta = dict(rng.choice(METAS))
         return t, atoms, params, meta
